@@ -448,6 +448,9 @@ def c08(ctx):
         C.apalache(ctx, "SliceSat", "WrongSaturation", negative=True)
     eval_family(ctx, "C08", {Q: (5, 1), T: (1, 1)})
     eval_family(ctx, "C08i", {Q: (1, 1), T: (1, 1)})
+    # the same window on typed Go slices ([]Inner, []*Inner, []float64, []string fields, empty and non-empty): sliceWithReflection is a separate path
+    files = C.generate(ctx, "Gen_Go", "C08t", {"Stride3": 1}, 8, stride=3 if ctx.tier == Q else 1, name="Gen_Go_slices_typed")
+    C.run_tool(ctx, "typed", files, {"typed-outcome", "typed-panic"}, canary_every=4999)
     gen_text(ctx, "nums", 0, 1, cats=EVAL_CATS, contract=False)      # slice bounds and indices spelled with leading zeros are decimal
     ctx.exhaustive = ctx.tier == T
 
